@@ -670,19 +670,9 @@ def symx_report(prop, tier, seed, index, results, feas, meta, known):
                         rep["how"] = "solver model on a rational grid"
                         vals = gvals
                         break
-            if rep is None and "EPS" in pth["inputs"] and "f64" in engines:
-                # the witness may hinge on the machine epsilon (a threshold compared against it): the model's own EPS
-                # is arbitrary, and when the path has a radical the exact-rational scalar cannot run it. Ask again with
-                # EPS pinned to f64's, which the f64 instantiation of the same code then replays as it stands.
-                evals = get_model(pth, gg, 30, pin=["(= EPS (/ 1 4503599627370496))"])
-                if evals is not None:
-                    rep = try_reproduce(name, pth, g, evals, seed, meta["rundir"], ["f64"], search=False)
-                    if rep:
-                        rep["how"] = "solver model with EPS pinned to f64::EPSILON"
-                        vals = evals
             if rep is None:
                 rep = try_reproduce(name, pth, g, None, seed, meta["rundir"], engines)
-        entry ={"key": key, "scenario": name, "goal": g["name"], "kind": g["kind"], "paths": [pth["path"]], "solver": r["solver"], "model": {k: str(v) for k, v in (vals or {}).items()}, "reproduced": rep is not None}
+        entry = {"key": key, "scenario": name, "goal": g["name"], "kind": g["kind"], "paths": [pth["path"]], "solver": r["solver"], "model": {k: str(v) for k, v in (vals or {}).items()}, "reproduced": rep is not None}
         seen_keys[key] = entry
         if rep is None:
             nonrepro.append(entry)
